@@ -63,6 +63,7 @@ utf8_decode(const void *buf, size_t buf_size, void *ret_buf, size_t ret_buf_size
 			(*ret_buf_pos) = codep;
 			ret_buf_pos ++;
 			ret_buf_size --;
+			ret_size ++;
 		}
 	}
 
